@@ -29,6 +29,8 @@ SYX = 'mido.syx'
 
 class EncodedText:
     """bytes of a text file whose characters are (partly symbolic) latin-1 text."""
+    py_type = 'bytes'         # what isinstance() sees: the content of a file opened in binary mode
+
     def __init__(self, text):
         self.text = text          # str | SStr
 
